@@ -44,10 +44,10 @@ const (
 // HTTPLogEntry records one request for oracles.
 type HTTPLogEntry struct {
 	Key, From, Addr, Method, URL string
-	Status                      int
-	Err                         string
-	At                          time.Duration
-	Body                        []byte
+	Status                       int
+	Err                          string
+	At                           time.Duration
+	Body                         []byte
 }
 
 // ListenAndServe replaces http.ListenAndServe: registers the handler and blocks.
